@@ -78,6 +78,19 @@ PROPS = {
         assumptions=['completion requests carry a state in {resolved, rejected, canceled} (front-end validation)'],
         trusted_base=['coroutine control flow and kernel tick are modelled by hand (Model/Coroutines, Model/System) and tied by sysdiff'],
     ),
+    'C15': dict(
+        modules=['Resonate.Properties.C15'],
+        tie_filter=r'^$',
+        harness=[dict(bin='frontdiff', name='frontdiff', quick=['-facts', '{gen}/gofacts.json'], thorough=['-facts', '{gen}/gofacts.json'], search=['-facts', '{gen}/gofacts.json'])],
+        divergence_is_violation=True,
+        rule='EXHAUSTIVE: 21 endpoints x all 30 StatusCode constants x {response, error} x {minimal, full} resource shapes x {HTTP, gRPC} against the '
+             'real gin engine and the real grpc server over a scripted stub kernel, each case in a child process (a handler panic is an observation); '
+             'checked per case: reply received, HTTP code = status/100, JSON body / error body carrying the code, gRPC OK iff successful and a proper '
+             'error code otherwise, every outcome flag = (status == the kernel\'s success status for that operation); plus per endpoint the same '
+             'well-formed request through both protocols must translate to the same kernel request',
+        assumptions=['wire codecs (gin, protobuf, base64) are exercised, not modelled'],
+        trusted_base=['translate/gofacts (go/ast fact extractor)', 'the stub kernel of frontdiff'],
+    ),
     'C16': dict(
         modules=['Resonate.Properties.C16'],
         tie_filter=r'.*',
